@@ -5,6 +5,7 @@ mod c14;
 mod c18;
 mod c19;
 mod plan;
+mod rowset;
 mod sql;
 mod util;
 
@@ -34,6 +35,7 @@ fn main() {
             "c14" => util::guard(|| c14::run(&v)),
             "c18" => util::guard(|| c18::run(&v)),
             "c19" => util::guard(|| c19::run(&v)),
+            "rowset" => util::guard(|| rowset::run(&v)),
             "crc" => util::guard(|| c18::crc(&v)),
             "sql" => util::guard(|| sql::run(&v)),
             _ => panic!("unknown command {cmd}"),
